@@ -171,7 +171,7 @@ func replay(file string) int {
 		fmt.Println(l)
 	}
 	fmt.Println("threads:", th)
-	if msg != msg2 {
+	if explore.Stable(msg) != explore.Stable(msg2) {
 		fmt.Println("REPLAY NOT DETERMINISTIC:", msg, "/", msg2)
 		return 2
 	}
